@@ -40,10 +40,10 @@ def compare(prog, dkind, ctx, ref: interp.Outcome, real: harness.RealOutcome) ->
             return ("wrong-exception-class", f"reference {ref.error} at node {ref.index}; run raised {real.error}: {real.exc!r}")
         if ref.status == "fail" and ref.index != real.index:
             return ("wrong-failing-node", f"reference fails at node {ref.index} ({ref.error}); run failed at node {real.index}")
-        if ref.error == "ValueError":
-            from verif_lib.components import THE_ERROR
+        if ref.error in ("ValueError", "RuntimeError"):
+            from verif_lib.components import EMPTY_ERROR, THE_ERROR
 
-            if real.exc is not THE_ERROR:
+            if real.exc is not (THE_ERROR if ref.error == "ValueError" else EMPTY_ERROR):
                 return ("exception-not-original", f"processor error reached the caller as a different object: {real.exc!r}")
         if real.ctx != ref.ctx:
             return ("wrong-context-at-failure", f"caller context after failure {real.ctx} != reference {ref.ctx}")
